@@ -142,6 +142,25 @@ pub fn run(args: &Args) -> Report {
         let label = format!("writer done, then Multiplexor A dropped at any point | {}", cfg.describe());
         cases.push(Case { try_unbounded: false, max_k: u32::MAX, label, exec: Box::new(move |r| xfer::exec(&cfg, &or, r)) });
     }
+    // the smallest drivers: EVERY interleaving (modulo commutation of steps of different endpoints: sleep sets)
+    for (a, b) in [((1u32, 1u32), (1u32, 1u32)), ((2, 1), (1, 1)), ((1, 1), (2, 2))] {
+        let streams = vec![StreamSpec {
+            tag: 1,
+            opener: 0,
+            opener_plan: EndPlan::Seq(vec![Op::W(2), Op::W(1), Op::Shutdown, Op::ReadToEof(4)]),
+            acceptor_plan: EndPlan::Seq(vec![Op::ReadToEof(2), Op::W(1), Op::Shutdown]),
+        }];
+        let cfg = XferCfg { a, b, cap: 0, streams, stream_buffer: 4, one_byte_frames: false, dgram_pingpong: 0, dgram_buffer: 4, drop_mux_when_writers_done: None, horizon: 4000 };
+        let label = format!("tiny, all interleavings | {}", cfg.describe());
+        cases.push(Case { try_unbounded: true, max_k: 2, label, exec: Box::new(move |r| xfer::exec(&cfg, &or, r)) });
+    }
+    // micro cases: small enough for the UNREDUCED tree too (used to cross-check the sleep-set reduction)
+    for (name, oa, ob) in [("micro-1", vec![Op::W(1)], vec![Op::ReadOnce(1)]), ("micro-2", vec![Op::W(1), Op::Shutdown], vec![Op::ReadToEof(2)])] {
+        let streams = vec![StreamSpec { tag: 1, opener: 0, opener_plan: EndPlan::Seq(oa), acceptor_plan: EndPlan::Seq(ob) }];
+        let cfg = XferCfg { a: (1, 1), b: (1, 1), cap: 0, streams, stream_buffer: 4, one_byte_frames: false, dgram_pingpong: 0, dgram_buffer: 4, drop_mux_when_writers_done: None, horizon: 4000 };
+        let label = format!("{name}, all interleavings | {}", cfg.describe());
+        cases.push(Case { try_unbounded: true, max_k: 1, label, exec: Box::new(move |r| xfer::exec(&cfg, &or, r)) });
+    }
     let plan = Plan {
         ks: if thorough { vec![0, 1, 2, 3, 4] } else { vec![0, 1, 2, 3] },
         env: 0,
